@@ -83,6 +83,9 @@ class Model(object):
         if "sec" in n:
             return MNode(n["sec"], parent, True, n.get("mult", 1), n["sec"])
         node = MNode(n["name"], parent, False)
+        # who charges commissions: the whole tree (set_commissions on the assembled root) or only the sub-strategies that had their own
+        # commission function installed before they were composed into the tree (nobody calls set_commissions on the root then)
+        node.charges = (parent is not None) or self.spec.get("fee_scope", "tree") == "tree"
         node.exists = not n.get("spawn", False)  # a sub-strategy created dynamically mid-history (parent=, setup_from_parent)
         node.spec = n
         for c in n.get("children") or []:
@@ -137,10 +140,10 @@ class Model(object):
             sp = self.spread.get(sec.ticker)
             s = 0.0 if sp is None else float(sp[self.i])
             bo = abs(q) * 0.5 * s * m
-            fee = self.fee.value(q, p * m)
+            fee = self.fee.value(q, p * m) if sec.parent.charges else 0.0
         else:
             bo = q * (px - p) * m
-            fee = self.fee.value(q, px * m)
+            fee = self.fee.value(q, px * m) if sec.parent.charges else 0.0
         outlay = q * p * m + bo
         sec.pos += q
         sec.outlay += outlay
@@ -185,13 +188,13 @@ class TreeRun(object):
         self.data = interp.mk_data(spec)
         self.fee = interp.Fee(spec.get("fee"))
         self.fee.record = True
-        self.root = interp.mk_node(bt, spec["tree"], spec, {})
+        self.root = interp.mk_node(bt, spec["tree"], spec, {"__fee__": self.fee})
         kw = {}
         if spec.get("bidoffer") is not None:
             kw["bidoffer"] = interp.mk_frame(spec["dates"], spec["bidoffer"])
         self.root.setup(self.data, **kw)
         self.root.use_integer_positions(bool(spec["integer"]))
-        if self.fee.spec["kind"] != "none":
+        if self.fee.spec["kind"] != "none" and spec.get("fee_scope", "tree") == "tree":
             self.root.set_commissions(self.fee)
         self.i = 0
         self.trades = []  # trades of the current op
@@ -205,6 +208,7 @@ class TreeRun(object):
             self.model.adjust(self.model.root, spec["capital"], True)
         self.skipped = 0
         self.executed = []
+        self.defer = False  # issue the next operation with update=False (the caller then owes the closing update)
 
     def __deepcopy__(self, memo):
         return None
@@ -312,6 +316,7 @@ class TreeRun(object):
         self.expect = None  # (strategy path, amount) expected as the first strategy-level allocate of this op
         M = self.model
         root = self.root
+        kw = {"update": False} if self.defer else {}
         if kind == "next":
             if self.i + 1 >= len(self.dates):
                 return False
@@ -351,7 +356,7 @@ class TreeRun(object):
                 return False
             if flow and not self.bottom_ok(ms.parent):
                 return False
-            s.adjust(amt, flow=flow)
+            s.adjust(amt, flow=flow, **kw)
             M.adjust(ms, amt, flow)
             return True
         if kind == "alloc":
@@ -359,7 +364,7 @@ class TreeRun(object):
                 return False
             amt = op[2] * cap
             self.expect = (ms.path, amt)
-            s.allocate(amt)
+            s.allocate(amt, **kw)
             return True
         if kind == "flatten":
             if not self.subtree_prices_ok(ms):
@@ -381,7 +386,7 @@ class TreeRun(object):
             amt = op[3] * cap
             if not mc.issec:
                 self.expect = (mc.path, amt)
-            s.allocate(amt, child=child)
+            s.allocate(amt, child=child, **kw)
             return True
         if kind == "transact":
             if not mc.issec:
@@ -398,9 +403,9 @@ class TreeRun(object):
                     return False
                 px = self.spec["prices"][child][self.i] * op[4]
                 s._create_child_if_needed(child) if child not in s.children else None
-                s.children[child].transact(q, price=px)
+                s.children[child].transact(q, price=px, **kw)
             else:
-                s.transact(q, child=child)
+                s.transact(q, child=child, **kw)
             return True
         if kind == "transact_seq":
             # several transactions back to back with no read in between (allowed: each only marks the tree stale)
@@ -424,7 +429,9 @@ class TreeRun(object):
             sec = s.children[child]
             for q in qs:
                 if px_mult is not None:
-                    sec.transact(q, price=self.spec["prices"][child][self.i] * px_mult)
+                    sec.transact(q, price=self.spec["prices"][child][self.i] * px_mult, **kw)
+                elif self.defer:
+                    sec.transact(q, update=False, update_self=False)
                 else:
                     sec.transact(q)
             return True
@@ -437,14 +444,14 @@ class TreeRun(object):
                 b = M.value(ms) if base is None else base
                 self.expect = (mc.path, (w - M.weight(mc)) * b)
             if base is None:
-                s.rebalance(w, child)
+                s.rebalance(w, child, **kw)
             else:
-                s.rebalance(w, child, base=base)
+                s.rebalance(w, child, base=base, **kw)
             return True
         if kind == "close":
             if child not in s.children:
                 return False
-            s.close(child)
+            s.close(child, **kw)
             return True
         raise ValueError(kind)
 
@@ -479,7 +486,10 @@ def check_trades(run, applied):
             raise Violation(
                 "trade q=%r in %s moved parent cash by %r, expected -(outlay %r + fee %r)" % (t["q"], msec.path, t["dcap"], outlay, fee), signature="trade-cash"
             )
-        if run.fee.spec["kind"] != "none":
+        if run.fee.spec["kind"] != "none" and not msec.parent.charges:
+            if t["fee_calls"]:
+                raise Violation("commission function evaluated for a trade in %s, whose strategy never had one installed" % msec.path, signature="fee-calls")
+        elif run.fee.spec["kind"] != "none":
             calls = t["fee_calls"]
             p = run.model.px(msec)
             pm = (p if t["px"] is None else t["px"]) * msec.mult
@@ -691,6 +701,12 @@ def history_spec(draw, min_ops=3, max_ops=25, max_dates=8, costs=True, allow_mul
             spec["bidoffer"] = bo
     else:
         spec["fee"] = {"kind": "none"}
+    if spec["fee"]["kind"] != "none" and len(strategy_paths(tree)) > 1 and draw(st.integers(0, 3)) == 0:
+        # the commission function is installed on each sub-strategy while it is still stand-alone; the assembled tree never gets one
+        spec["fee_scope"] = "children"
+        for path_, nd_ in gen.walk_nodes(tree):
+            if len(path_) > 1:
+                nd_["own_fee"] = True
     spawn = None
     if draw(st.integers(0, 3)) == 0:
         # a sub-strategy that does not exist at first and is created mid-history under one of the strategies
@@ -728,6 +744,8 @@ def history_labels(spec, run):
         labs.append("shared_ticker")
     if spec.get("fee", {}).get("kind", "none") != "none":
         labs.append("fee")
+    if spec.get("fee_scope") == "children":
+        labs.append("fee_installed_before_composition")
     if spec.get("bidoffer"):
         labs.append("spread")
     if spec["integer"]:
